@@ -14,3 +14,5 @@ Definition zdict_update {V} (d e:dict Z V) : dict Z V := fold_left (fun acc kv =
 Definition set_ckey (c:cond) (k:Z) : cond := {| ckey := Z.to_nat k; ccons := ccons c; cante := cante c |}.
 (* And([f1, ..., fk]) *)
 Definition f_and_list (l:list form) : form := fold_right FAnd FTop l.
+(* the operator classes create_inference_instance chooses from *)
+Inductive opclass := OpPEntailment | OpSystemZ | OpSystemW | OpSystemWZ3 | OpCInference | OpLexInf | OpLexInfZ3.
